@@ -142,6 +142,12 @@ contract(D + "immune_system.py::ImmuneSystem.inspect", "C17",
          })
 
 
+# the operator's entry for the manual second signal: it reaches the watcher of exactly that agent (an unknown agent is ignored, nobody else is flagged)
+contract(D + "immune_system.py::ImmuneSystem.flag_agent", "C17",
+         callbacks={"TCell.flag_manually": {"returns": "none", "raises": ()}}, raises=[],
+         ensures={"flags-exactly-the-known-agent": "calls_to('.flag_manually') == (1 if agent_id in self.tcells else 0)"})
+
+
 def native_replay(rep):
     import os, sys
     sys.path.insert(0, os.path.dirname(os.path.dirname(os.path.abspath(__file__))))
